@@ -275,7 +275,7 @@ def _fix_relations(lines, style, rules_with, res, concrete, fail, lab, case):
             lab["fix_off_R_monitored"] = 1
             for rid, lns in obs.get("update_log", []):
                 if rid in R:
-                    fail("tagged_rule_fixed_something", rid, {"R": R, "lines": lns[:5]})
+                    res["failures"].append({"sig": {"kind": "tagged_rule_fixed_something", "site": engine.site_of_id(rid)}, "detail": {"rule": rid, "R": R, "lines": lns[:5]}, "case": concrete})
                     break
     except common.exceptions.ClassifyError:
         lab["fix_variant_rejected"] = 1
